@@ -22,6 +22,7 @@ import formula
 from formula import Evaluator, Unknown, Panic, StructVal, some, is_some
 
 FILE = "src/textvalidation.rs"
+REAL_CHECKSUM = None
 
 
 class Scenario:
@@ -61,10 +62,20 @@ def annotation_hooks(sc, changed, stored, log):
 
     def text_checksum(ev, recv, args, node, env):
         log.append(("text_checksum", args[0]))
+        if REAL_CHECKSUM is not None:
+            # the extracted body itself: its own text_join / Sha1 calls come back to these hooks
+            sub = Evaluator(hooks=dict((k_, v_) for k_, v_ in h.items() if k_ != "text_checksum"))
+            return sub.run_body(REAL_CHECKSUM.body, {"self": recv, "delimiter": args[0]})
         t = sc.actual(args[0], changed)
         return some(digest(t)) if t else None
     h["text_join"] = text_join
     h["text_checksum"] = text_checksum
+    # digest primitives used by the real text_checksum body (when it is evaluated instead of the model)
+    h["call:Sha1::new"] = lambda ev, recv, args, node, env: StructVal("Hasher", {"data": ""})
+    h["update"] = lambda ev, recv, args, node, env: (recv.__setitem__("data", recv["data"] + str(args[0])) or ()) if isinstance(recv, StructVal) and recv.tyname == "Hasher" else NotImplemented
+    h["finalize"] = lambda ev, recv, args, node, env: digest(recv["data"]) if isinstance(recv, StructVal) and recv.tyname == "Hasher" else NotImplemented
+    h["call:lower::encode_string"] = lambda ev, recv, args, node, env: args[0]
+    h["as_ref"] = lambda ev, recv, args, node, env: recv
 
     def unwrap_or(ev, recv, args, node, env):
         return recv[1] if is_some(recv) else args[0]
@@ -111,6 +122,13 @@ def run(ctx):
         return
     for f in (protect, vt_ann, vt_store):
         ctx.functions_analysed.add(f.qual)
+    tc = one("text_checksum", "ResultItem")
+    if tc is None:
+        ctx.anchor_missing(r_round, "ResultItem<Annotation>::text_checksum")
+        return
+    ctx.functions_analysed.add(tc.qual)
+    global REAL_CHECKSUM
+    REAL_CHECKSUM = tc
 
     # ------------------------------------------------------------ VERDICT
     def eval_validate(sc, stored, changed):
